@@ -639,7 +639,7 @@ impl Buffer {
 // ---- Buffer::push from the serializer call to the end: header (lengths, checksum over exactly the value+key bytes,
 // compression tag) and commit (refuse the entry as a whole if it exceeds the per-entry limit, else record it at the old
 // write position and advance the write position by the SAME aligned length the splitter will compute from `len`)
-//@region foyer-storage/src/engine/block/buffer.rs :: impl~^impl Buffer$/fn push name=push_body start=/let info = match EntrySerializer::serialize\(/ stmts=99 rules=drop-tracing,drop-metrics sub=@EntrySerializer::serialize\(key, value, compression, &mut buf\[([^\]]*)\.\.\]\)@verif_serialize(buf, \1)@ sub=@(?s)Checksummer::checksum64\(\s*&buf\[([^\]]*?)\s*\.\.([^\]]*?)\],?\s*\)@verif_checksum(&buf, \1, \2)@ sub=@header\.write\(&mut buf\[\.\.([^\]]*)\]\);@verif_header_write(&header, buf, \1);@ sub=@info\.key_len as _@info.key_len as u32@ sub=@info\.value_len as _@info.value_len as u32@
+//@region foyer-storage/src/engine/block/buffer.rs :: impl~^impl Buffer$/fn push name=push_body start=/let info = / stmts=99 rules=drop-tracing,drop-metrics sub=@EntrySerializer::serialize\(key, value, compression, &mut buf\[([^\]]*)\.\.\]\)@verif_serialize(buf, \1)@ sub=@(?s)Checksummer::checksum64\(\s*&buf\[([^\]]*?)\s*\.\.([^\]]*?)\],?\s*\)@verif_checksum(&buf, \1, \2)@ sub=@header\.write\(&mut buf\[\.\.([^\]]*)\]\);@verif_header_write(&header, buf, \1);@ sub=@info\.key_len as _@info.key_len as u32@ sub=@info\.value_len as _@info.value_len as u32@
 //@head
     fn push_body(&mut self, buf: &mut TailT, offset: usize, hash: u64, sequence: Sequence, compression: Compression) -> (r: bool)
         requires
